@@ -203,7 +203,7 @@ def decide(prop, tier, repo, seed, only_units=None, quiet=False):
                     except Exception as e:
                         rc, out = None, str(e)
                     bounded_runs.append({"unit": name, "bound": fb["bound"], "ran": rc is not None, "passed": rc == 0, "label": "bounded stand-in, not proof"})
-                    if rc is not None and rc != 0 and "panicked" in out:
+                    if rc is not None and rc != 0 and ("panicked" in out or "VX-FALLBACK" in out or "test result: FAILED" in out):
                         msg = [l for l in out.split("\n") if "VX-FALLBACK" in l or "panicked" in l][:4]
                         fallback_violations.append((name, fb, msg, out))
                     elif rc == 0:
@@ -312,7 +312,7 @@ def decide(prop, tier, repo, seed, only_units=None, quiet=False):
                 except Exception as e:
                     rc, out = None, str(e)
                 bounded_runs.append({"unit": u["name"], "bound": fb["bound"], "ran": rc is not None, "passed": rc == 0, "label": "bounded stand-in, not proof (thorough tier: run in addition to the proof)"})
-                if rc is not None and rc != 0 and "panicked" in out:
+                if rc is not None and rc != 0 and ("panicked" in out or "VX-FALLBACK" in out or "test result: FAILED" in out):
                     msg = [l for l in out.split("\n") if "VX-FALLBACK" in l or "panicked" in l][:4]
                     fallback_violations.append((u["name"], fb, msg, out))
         # ---- concrete-history corpus (lib/corpus.py): on a failed obligation (to look for a concrete failing history on the real
